@@ -1,8 +1,8 @@
-"""Exact correspondence of the faithful cycle-level models (Mvp/Mvp4.v, Mvp5.v, Mvp60.v .. Mvp63.v) with the Go
+"""Exact correspondence of the faithful cycle-level models (Mvp/Mvp4.v, Mvp5.v, Mvp60.v .. Mvp63.v, Mvp70.v, Mvp71.v, Mvp80.v) with the Go
 variants on the programs of a system check - INCLUDING programs outside the calibrated clean domain.
 
 The models are tied to the pinned code by exact equality of (cycles, registers, memory).  A change of
-proc/mvp4, proc/mvp5 or proc/mvp6-0 .. 6-3 therefore shows as a disagreement on the first program that takes
+proc/mvp4 .. proc/mvp8-0 therefore shows as a disagreement on the first program that takes
 the changed path, even where the pinned code itself is wrong (known findings) and the differential
 against the sequential machine cannot judge.  A disagreement is classified:
   * the model (= the pinned code) returns the sequential result on this program and the implementation
@@ -11,9 +11,9 @@ against the sequential machine cannot judge.  A disagreement is classified:
     no-failing-input-found unless a counterexample was found elsewhere)."""
 from . import common as C, sysdiff as S
 
-MODEL_VARIANTS = {'4': (1,), '5': (1,), '6.0': (1, 2, 3, 4), '6.1': (1, 2, 3, 4), '6.2': (1, 2, 3, 4), '6.3': (1, 2, 3, 4), '8.0': (1, 2, 3, 4)}
+MODEL_VARIANTS = {'4': (1,), '5': (1,), '6.0': (1, 2, 3, 4), '6.1': (1, 2, 3, 4), '6.2': (1, 2, 3, 4), '6.3': (1, 2, 3, 4), '7.0': (1, 2, 3, 4), '7.1': (1, 2, 3, 4), '8.0': (1, 2, 3, 4)}
 TARGETS = ['theories/Mvp/Mvp12.vo', 'theories/Mvp/Mvp3.vo', 'theories/Mvp/Mvp4.vo', 'theories/Mvp/Mvp5.vo',
-           'theories/Mvp/Mvp60.vo', 'theories/Mvp/Mvp61.vo', 'theories/Mvp/Mvp62.vo', 'theories/Mvp/Mvp63.vo', 'theories/Mvp/Mvp80.vo', 'theories/Isa/Refine.vo']
+           'theories/Mvp/Mvp60.vo', 'theories/Mvp/Mvp61.vo', 'theories/Mvp/Mvp62.vo', 'theories/Mvp/Mvp63.vo', 'theories/Mvp/Mvp70.vo', 'theories/Mvp/Mvp71.vo', 'theories/Mvp/Mvp80.vo', 'theories/Isa/Refine.vo']
 
 
 def strip(line):
@@ -48,7 +48,7 @@ def tie(ctx, progs, spec, variants, tag='mt', step=1):
                 if kind in ('budget', 'hang', 'crash'):
                     stats['budget_skipped'] += 1
                     continue
-                if v in ('6.0', '6.1', '6.2', '6.3', '8.0'):
+                if v in ('6.0', '6.1', '6.2', '6.3', '7.0', '7.1', '8.0'):
                     fuel = (impl[j][4] + 8) if kind == 'ok' and impl[j][4] else min(S.budget_for(spec[k][1]), 40000)
                     name = '%sx%d' % (v, par)
                 else:
